@@ -88,7 +88,12 @@ def gen_case(rng, stream):
         anch = {"supply": ths + [F(0), F(5)], "demand": [F(0), F(10)], "utilisation": [F(1, 2)], "allocation": [F(1, 2)]}
         ops = gen_ops(rng, n, lambda f: [max(a, F(0)) if f == "supply" else a for a in anch[f]], with_interval=False)
         ops = [o if o[0] == "step" or o[1] != "supply" or unwire(o[2]) >= 0 else ["set", "supply", "0/1"] for o in ops]
-        return {"kind": "stepwise", "rules": specs, "table": table, "interval": wire(q(rng, 1, 8, (1, 2, 4))), "pool": pool, "ops": ops}
+        # built directly, or through the decorator skeleton - where controllers may be created from the
+        # skeleton between two `add`s (each controller has the rules declared when it is created)
+        build = rng.choice(["direct", "skeleton", "skeleton"])
+        early = sorted(rng.sample(range(len(table) + 1), rng.randint(0, min(2, len(table) + 1)))) if build == "skeleton" else []
+        return {"kind": "stepwise", "rules": specs, "table": table, "interval": wire(q(rng, 1, 8, (1, 2, 4))), "pool": pool, "ops": ops,
+                "build": build, "early": early, "final": rng.choice(["call", "partial"]), "addform": rng.choice(["direct", "decorator"])}
     # switch
     k = rng.randint(0, 6)
     ctls = [gen_ctl(rng, bad=0.01) for _ in range(k + 1)]
@@ -185,7 +190,22 @@ def impl(case):
     interval = unwire(case["interval"])
     rules = [mkrule(s, i, calls) for i, s in enumerate(case["rules"])]
     try:
-        sw = Stepwise(pool, rules[0], *[(unwire(t), rules[i]) for t, i in case["table"]], interval=float(interval))
+        if case.get("build") == "skeleton":
+            from cobald.controller.stepwise import stepwise
+            sk = stepwise(rules[0])
+            scratch = RecPool(0, 0, 1, 1)
+            for j, (t, i) in enumerate(case["table"]):
+                if j in case["early"]:
+                    (sk(scratch, interval=1) if j % 2 else sk.s(interval=1) >> scratch)
+                if case["addform"] == "decorator":
+                    sk.add(supply=unwire(t))(rules[i])
+                else:
+                    sk.add(rules[i], supply=unwire(t))
+            if len(case["table"]) in case["early"]:
+                sk(scratch, interval=1)
+            sw = sk(pool, interval=float(interval)) if case["final"] == "call" else sk.s(interval=float(interval)) >> pool
+        else:
+            sw = Stepwise(pool, rules[0], *[(unwire(t), rules[i]) for t, i in case["table"]], interval=float(interval))
     except REJECT:
         return {"ctor": "reject"}
     err = []
